@@ -92,6 +92,7 @@ def check(ctx, replay=None):
         dict(scope="single", kw=dict(W=2, NSys=1), n=256 if th else 50),
         dict(scope="boundary", kw=dict(W=15, NSys=1), n=200 if th else 30),
         dict(scope="klong", kw=K, n=45 if th else 12),
+        dict(scope="merge", kw={}, n=200 if th else 40),        # entries of one syscall that are not adjacent (A, B, A)
     ]
     jobs, outs = [], []
     for i, p in enumerate(plan):
